@@ -255,31 +255,41 @@ namespace TAO_PEGTL_NAMESPACE::parse_tree
          static constexpr bool enable = true;
 
          template< typename ParseInput, typename... States >
-         static void start( const ParseInput& /*unused*/, state< Node >& state, States&&... /*unused*/ )
+         static void start( const ParseInput& in, state< Node >& state, States&&... st )
          {
+            Control< Rule >::start( in, st... );
             state.emplace_back();
          }
 
          template< typename ParseInput, typename... States >
-         static void success( const ParseInput& /*unused*/, state< Node >& state, States&&... /*unused*/ )
+         static void success( const ParseInput& in, state< Node >& state, States&&... st )
          {
             auto n = std::move( state.back() );
             state.pop_back();
             for( auto& c : n->children ) {
                state.back()->children.emplace_back( std::move( c ) );
             }
+            Control< Rule >::success( in, st... );
          }
 
          template< typename ParseInput, typename... States >
-         static void failure( const ParseInput& /*unused*/, state< Node >& state, States&&... /*unused*/ )
+         static void failure( const ParseInput& in, state< Node >& state, States&&... st )
          {
             state.pop_back();
+            Control< Rule >::failure( in, st... );
          }
 
          template< typename ParseInput, typename... States >
-         static void unwind( const ParseInput& /*unused*/, state< Node >& state, States&&... /*unused*/ )
+         static void unwind( [[maybe_unused]] const ParseInput& in, state< Node >& state, States&&... st )
          {
             state.pop_back();
+            if constexpr( control_has_unwind< Control< Rule >, const ParseInput&, States... > ) {
+               Control< Rule >::unwind( in, st... );
+            }
+#if defined( _MSC_VER )
+            ( (void)st,
+              ... );
+#endif
          }
       };
 
